@@ -1366,8 +1366,8 @@ def work_arrays_defined(check, prog):
     import tempfile
     from hpstatic.fortran import scan_file
     from hpstatic import fdefuse
-    from .c10 import meson_inputs, MIE_DIR
-    files = meson_inputs(prog.root, MIE_DIR)
+    from .c10 import meson_inputs, MIE_DIR, TM_DIR
+    files = meson_inputs(prog.root, MIE_DIR) + meson_inputs(prog.root, TM_DIR)
     # the rule must see the defect it is about (and stay silent on its repair)
     for start, want in ((1, 1), (0, 0)):
         with tempfile.NamedTemporaryFile('w', suffix='.for', delete=False) as f:
@@ -1394,13 +1394,15 @@ def work_arrays_defined(check, prog):
             for m in __import__('re').finditer(r"(?im)^\s+include\s+'([^']+)'", f.read()):
                 ip = os.path.join(os.path.dirname(path), m.group(1))
                 if os.path.exists(ip):
-                    for line in open(ip, errors='replace'):
-                        mm = __import__('re').match(r'(?i)^\s+parameter\s*\((.*)\)', line)
-                        if mm:
-                            for ent in mm.group(1).replace(' ', '').lower().split(','):
-                                k, _, v = ent.partition('=')
-                                if v.isdigit():
-                                    inc[k] = int(v)
+                    # name = <integer literal> entries of its PARAMETER statements
+                    # (continuation lines joined)
+                    text = ''.join(ln[6:] if len(ln) > 6 else '' for ln in
+                                   open(ip, errors='replace').read().splitlines()
+                                   if ln[:1] not in 'cC*!')
+                    text = text.replace(' ', '').lower()
+                    for mm in __import__('re').finditer(
+                            r'([a-z][a-z0-9_]*)=(\d+)(?=[,)])', text):
+                        inc[mm.group(1)] = int(mm.group(2))
         relpath = os.path.relpath(path, prog.root)
         for u in scan_file(path, relpath):
             nunits += 1
@@ -1429,8 +1431,8 @@ def work_arrays_defined(check, prog):
                     check.ok('H11-work-array-defined', construct,
                              'no unguarded read reaches below the lowest stored index',
                              '%s:%d' % (relpath, u.line))
-    check.floor('H11 program units scanned', nunits, 30)
-    check.floor('H11 local work arrays analysed', narr, 4)
+    check.floor('H11 program units scanned', nunits, 60)
+    check.floor('H11 local work arrays analysed', narr, 12)
 
 
 def status_examined(check, prog):
